@@ -31,6 +31,56 @@ def flag_sets(tier, rnd):
     return sets
 
 
+def tour(rnd, hid):
+    """a history that produces every relay class together with the state changes that go with it: members with
+    entities, a type with two subscribers, components added / updated / deleted, poses, custom messages, actions and
+    assets, the departure of an owner of entities that carry components, a newcomer, lists"""
+    n = [0]
+    steps = []
+
+    def rq(c, **r):
+        n[0] += 1
+        r.update(rid=n[0], ts=n[0])
+        steps.append(dict(step="Req", conn=c, req=r))
+
+    def parked(c, **r):
+        n[0] += 1
+        r.update(rid=n[0], ts=n[0])
+        steps.append(dict(step="Recv", conn=c, req=r))
+        steps.append(dict(step="Tick", sid=1))
+        for d in (1, 2, 3):
+            steps.append(dict(step="Proc", conn=d))
+    rq(1, k="Join", sid=0); rq(2, k="Join", sid=1); rq(3, k="Join", sid=1)
+    p1 = rnd.random() < 0.5
+    rq(1, k="EntityAdd", persist=False, flag=0, px=1); rq(1, k="EntityAdd", persist=p1, flag=1, px=2); rq(2, k="EntityAdd", persist=False, flag=0, px=3)
+    rq(1, k="TypeAdd", name="a"); rq(2, k="TypeAdd", name="b")
+    rq(2, k="Sub", tid=1); rq(3, k="Sub", tid=1)
+    if rnd.random() < 0.5:
+        rq(1, k="Sub", tid=1)
+    rq(1, k="CompAdd", tid=1, eid=1, data=1); rq(1, k="CompAdd", tid=1, eid=2, data=1); rq(2, k="CompAdd", tid=1, eid=3, data=2); rq(2, k="CompAdd", tid=2, eid=3, data=3)
+    parked(1, k="CompUpdate", tid=1, eid=1, data=2)
+    parked(2, k="CompUpdate", tid=1, eid=3, data=3)
+    parked(1, k="Pose", eid=1, px=4)
+    parked(2, k="Pose", eid=3, px=5)
+    rq(1, k="Custom", len=5, dig=n[0], to=[]); rq(2, k="Custom", len=7, dig=n[0], to=[1, 3]); rq(3, k="Custom", len=10241, dig=n[0], to=[])
+    rq(2, k="CompDelete", tid=1, eid=3); rq(2, k="CompDelete", tid=2, eid=3); rq(2, k="CompAdd", tid=1, eid=3, data=1)
+    rq(1, k="Action", eid=1, name="x", ats=2, data=1, has=True); rq(1, k="AssetAdd", eid=1, asset="m"); rq(2, k="AssetAdd", eid=3, asset="n")
+    rq(3, k="EntityDelete", eid=1)          # refused (foreign)
+    rq(2, k="EntityDelete", eid=3)          # accepted: entity with a component
+    steps.append(dict(step="Disc", conn=1, cause="close"))      # owner of entities with components and an action leaves
+    rq(4, k="Join", sid=1)
+    rq(2, k="CompList", tid=1); rq(4, k="CompList", tid=1)
+    rq(2, k="Join", sid=0)                                      # a switch
+    rq(3, k="Unsub", tid=1)
+    for _ in range(2):
+        for sid in (1, 2, 3):
+            steps.append(dict(step="Tick", sid=sid))
+        for c in (1, 2, 3, 4):
+            for _ in range(3):
+                steps.append(dict(step="Proc", conn=c))
+    return dict(hid=hid, config=dict(mods=[], flags=[]), steps=steps)
+
+
 def run(work, tier, replay=None):
     rnd = random.Random(work.seed)
     work.build_harness()
@@ -47,14 +97,27 @@ def run(work, tier, replay=None):
         hs = [h for h in read_ndjson(replay) if "steps" in h]
         plan = [(h["config"]["flags"], [h]) for h in hs]
     else:
-        nb, per = (3, 14) if tier == "quick" else (40, 5)
+        nb, per = (4, 14) if tier == "quick" else (40, 5)
+        # the batches differ in what they dwell on, so that every relay class is produced together with the state
+        # changes that go with it (a departure of an owner of entities with components, parked updates, ...)
+        focus = [None, relay_cfg.FOCUS["comps"]["Kinds"] + ["Leave"], relay_cfg.FOCUS["core"]["Kinds"] + ["Leave"],
+                 relay_cfg.FOCUS["comps"]["Kinds"] + ["Leave"]]
         batches = []
         for b in range(nb):
-            hs = relay_check.gen_random_histories(work, per // 2 + 1, 60, work.seed * 100 + b, mods, "fb%d" % b)
-            hs += relay_check.gen_tlc_histories(work, per - len(hs), 40, work.seed * 100 + b, mods, "fb%d" % b)
+            hs = relay_check.gen_random_histories(work, per // 2 + 1, 70, work.seed * 100 + b, mods, "fb%d" % b, kinds=focus[b % 4])
+            over = dict(relay_cfg.FOCUS["comps" if b % 4 in (1, 3) else "core"]) if b % 4 else {}
+            hs += relay_check.gen_tlc_histories(work, per - len(hs), 40, work.seed * 100 + b, mods, "fb%d" % b, **over)
+            hs.append(tour(rnd, "tour%d" % b))
             batches.append(hs)
         sets = flag_sets(tier, rnd)
-        plan = [(F, batches[i % nb]) for i, F in enumerate(sets)]
+        plan = []
+        for i, F in enumerate(sets):
+            if len(F) == 1 and F[0] in FLAGS:
+                # a single flag meets every kind of batch
+                for b in range(4):
+                    plan.append((F, batches[(i + b) % nb]))
+            else:
+                plan.append((F, batches[i % nb]))
 
     # base runs (no flag), one per distinct batch
     base_cache = {}
@@ -97,7 +160,7 @@ def run(work, tier, replay=None):
         for p in merged_files:
             f.write(open(p).read())
     chunks, nh = relay_check.split_trace(allp, NCPU)
-    work.log("%d flag sets, %d paired histories, %d steps" % (len(plan), nh, nrec))
+    work.log("%d (flag set, batch) pairs, %d paired histories, %d steps" % (len(plan), nh, nrec))
     fails = []
     with ThreadPoolExecutor(max_workers=NCPU) as ex:
         futs = [ex.submit(relay_check.validate_chunk, work, ch, ["Ok_C17"], mods, [], "tv17-%d" % ci) for ci, ch in enumerate(chunks)]
@@ -114,6 +177,9 @@ def run(work, tier, replay=None):
             n0 = sum(len(ms) for _, ms in r["out0"])
             n1 = sum(len(ms) for _, ms in r["out"])
             suppressed += n0 - n1
+            if len(r["fl"]) == 1 and r["fl"][0] in per_flag and n0 != n1:
+                per_flag[r["fl"][0]] += n0 - n1
+    work.log("suppressed by each flag alone: %s" % per_flag)
     violations, known = [], []
     seen = set()
     for fr in fails:
@@ -136,7 +202,7 @@ def run(work, tier, replay=None):
             break
     coverage = dict(states=mc.get("distinct", 0) or 1, transitions=mc.get("generated", 0) or 1,
                     traces_validated_against_impl=nh, paired_steps=nrec, flag_sets=len(plan),
-                    messages_suppressed=suppressed,
+                    messages_suppressed=suppressed, suppressed_by_each_flag_alone=per_flag,
                     samples=[sample or dict(note="no suppressed message in the sampled file")],
                     exhaustive=(tier == "thorough"), failing=[dict(hid=fr["hid"], signature=fr["sig"]) for fr in fails][:20])
     write_evidence(work, "model_checking", coverage,
@@ -154,5 +220,7 @@ def run(work, tier, replay=None):
         return 1
     if not replay and suppressed < 50:
         raise Inconclusive("vacuity gate: only %d messages were suppressed by flags" % suppressed)
+    if not replay and any(v < 3 for v in per_flag.values()):
+        raise Inconclusive("vacuity gate: flags that (alone) suppressed fewer than 3 messages: %s" % {k: v for k, v in per_flag.items() if v < 3})
     print("OK property=C17 tier=%s: %d flag sets, %d paired histories, %d steps, %d messages suppressed" % (tier, len(plan), nh, nrec, suppressed))
     return 0
